@@ -3,7 +3,7 @@
 import re
 
 from .. import dataflow as df
-from ..facts import Site, op_local, const_int
+from ..facts import Site, op_local, const_int, short
 
 EXPLANATION = (
     "Static analysis over rustc's promoted MIR of qbice_storage. C09.a at each of the 6 write sites (insert/remove of the single, dynamic and "
@@ -366,7 +366,94 @@ def c09f(ctx):
             ctx.fail(o2, vo[0], "staged operations are not stamped with an issue sequence number")
 
 
+def c09g(ctx):
+    """Clauses added after the exploratory (challenge) mutants: the write batch and the key-of-set staging layer."""
+    prog = ctx.prog
+    # ---- coalescing inside one batch keeps the LATEST operation on a key / element
+    o = ctx.ob("C09.g", "batch/coalescing-keeps-the-latest-operation", "K3",
+               "within a batch a later operation on the same key (or set element) overwrites the earlier one: the per-batch maps are written with HashMap::insert only")
+    for fn in ("TypedWideColumnWrites::insert", "TypedKeyOfSetWrites::insert"):
+        b = ctx.touch(prog.body(fn))
+        ins = b.calls_to(r"HashMap::<K, V, S(, A)?>::insert$")
+        keep_first = b.calls_to(r"Entry::<[^>]*>::(or_insert|or_insert_with|or_insert_with_key|or_default)$|::try_insert$|OccupiedEntry::<[^>]*>::get$")
+        o.sites += len(ins) + len(keep_first)
+        if not ins:
+            ctx.fail(o, Site(b, 0, 0), "%s does not overwrite the recorded operation with HashMap::insert" % fn)
+        for s_ in b.calls_to(r"Entry::<[^>]*>::(or_insert|or_insert_with|or_insert_with_key|or_default)$|::try_insert$"):
+            # or_default()/or_insert on the *outer* (per-key) map is fine when its result is then written with insert
+            if not any(k == "arg" and st.node["fn"]["path"].endswith("::insert") for k, st, i in df.forward_uses(b, s_)):
+                ctx.fail(o, s_, "%s keeps the FIRST operation recorded for a key/element (%s): `insert; remove` in one batch persists the insert" % (fn, short(s_.node["fn"]["path"])))
+    # ---- both write families of a batch are serialised and notified
+    o = ctx.ob("C09.g", "batch/every-write-family-serialised-and-notified", "K3",
+               "WriteBatch::write_to_db and ::after_commit visit every *Writes field of the batch")
+    adt = next((v for k, v in prog.adts.items() if k.endswith("write_behind::WriteBatch")), None)
+    fams = [f["name"] for f in adt["variants"][0]["fields"] if "Writes<" in f["ty"]] if adt else []
+    o.sites = len(fams)
+    if len(fams) < 2:
+        ctx.fail(o, "(program)", "anchor missing: the *Writes fields of write_behind::WriteBatch (found %s)" % fams)
+    for fn, callee in (("WriteBatch::write_to_db", r"Writes::<Db>::write_to_db$"), ("WriteBatch::after_commit", r"Writes::<Db>::after_commit$")):
+        cands = [x for x in prog.by_name.get(fn, []) if "write_behind" in x.file]
+        if len(cands) != 1:
+            ctx.fail(o, "(program)", "anchor missing: %s" % fn)
+            continue
+        b = ctx.touch(cands[0])
+        seen = set()
+        for s_ in b.calls_to(callee):
+            seen |= set(df.access_path(b, s_.node["args"][0]))
+            if b.must_pass([0], [s_.bb]):
+                ctx.fail(o, s_, "%s does not reach %s on every path" % (fn, short(s_.node["fn"]["path"])))
+        for f in fams:
+            if f not in seen:
+                ctx.fail(o, Site(b, 0, 0), "%s skips `%s`: those writes are never %s" % (fn, f, "persisted" if fn.endswith("write_to_db") else "un-pinned / flushed from the staging log"))
+    # ---- a staging snapshot first applies the deferred messages
+    o = ctx.ob("C09.g", "staging/snapshot-applies-deferred-messages-first", "K1",
+               "ConcurrentLog::get_snapshot drains the deferred-message queue (fix) before it reads the log")
+    b = ctx.touch(prog.body("ConcurrentLog::get_snapshot"))
+    fx = b.calls_to(r"ConcurrentLog::<V>::fix$")
+    rd = b.calls_to(r"BinaryHeap::<T(, A)?>::(iter|into_sorted_vec|into_vec|drain|peek|clone)$|IntoIterator::into_iter$")
+    o.sites = len(fx) + len(rd)
+    if not fx or not rd:
+        ctx.fail(o, Site(b, 0, 0), "get_snapshot must call fix() and then read the heap (fix=%d, reads=%d): operations deferred under contention would be invisible to readers" % (len(fx), len(rd)))
+    else:
+        for r_ in rd:
+            if not any(b.site_dominates(f_, r_) for f_ in fx):
+                ctx.fail(o, r_, "the log is read before the deferred messages were applied")
+    # ---- a freshly loaded set is overlaid with BOTH halves of the staging snapshot
+    o = ctx.ob("C09.g", "fetch_entry/overlays-added-and-removed", "K8",
+               "fetch_entry inserts every staged addition and removes every staged removal from the set it loaded")
+    b = ctx.touch(prog.body("CacheKeyOfSetMap::fetch_entry"))
+    def overlay(callee, field):
+        for s_ in b.calls_to(callee):
+            for x in df.origins_of_operand(b, s_.node["args"][1]):
+                if x.kind == "param":
+                    pass
+            if field in df.access_path(b, s_.node["args"][1]) or any(field in df.access_path(b, y.site.node["args"][0]) for y in df.origins_of_operand(b, s_.node["args"][1]) if y.kind == "call" and y.site.node["args"]):
+                return s_
+        return None
+    add = overlay(r"ConcurrentSet::insert_element$", "added")
+    rem = overlay(r"ConcurrentSet::remove_element$", "removed")
+    o.sites = int(add is not None) + int(rem is not None)
+    if add is None:
+        ctx.fail(o, Site(b, 0, 0), "fetch_entry does not insert the staged additions (snapshot.added) into the loaded set")
+    if rem is None:
+        ctx.fail(o, Site(b, 0, 0), "fetch_entry does not remove the staged removals (snapshot.removed) from the loaded set: an uncommitted remove is invisible after a cache miss")
+    # ---- the staging pin counter is raised for every batch that newly records the key
+    o = ctx.ob("C09.g", "apply_op/pin-counter-raised-under-updated", "K4",
+               "apply_op raises `dirty` of an existing staging entry exactly when the batch newly recorded the key")
+    c = ctx.touch(prog.body("CacheKeyOfSetMap::apply_op::{closure#0}"))
+    fa = c.calls_to(r"core::sync::atomic::Atomic::<usize>::fetch_add$")
+    o.sites = len(fa)
+    if len(fa) != 1 or "dirty" not in df.access_path(c, fa[0].node["args"][0]):
+        ctx.fail(o, Site(c, 0, 0), "apply_op's lookup of an existing staging entry does not raise its `dirty` counter: the later flush of this batch drops the counter below the "
+                 "number of unflushed batches, the log is un-pinned early and evicted with uncommitted operations in it")
+    else:
+        g = [x for x in df.guarded_by(c, fa[0].bb, lambda cd: cd.kind in ("value", "param", "capture") or True) if x[3].kind != "disc"]
+        if not g:
+            ctx.fail(o, fa[0], "the counter is raised unconditionally (must depend on `updated`)")
+
+
 def run(ctx):
+    ctx.run_clause("C09.g", c09g)
     ctx.run_clause("C09.a", c09a)
     ctx.run_clause("C09.b", c09b)
     ctx.run_clause("C09.c", c09c)
